@@ -259,6 +259,24 @@ func isDynamicType(ctx context.Context, tc *typeComponent) (bool, error) {
 	}
 }
 
+// occupiesHeadBytes checks whether a value of the type takes up any bytes at all where it is encoded.
+// Only zero length fixed arrays, and tuples/fixed arrays built from nothing else, do not.
+func occupiesHeadBytes(tc *typeComponent) bool {
+	switch tc.cType {
+	case TupleComponent:
+		for _, childType := range tc.tupleChildren {
+			if occupiesHeadBytes(childType) {
+				return true
+			}
+		}
+		return false
+	case FixedArrayComponent:
+		return tc.arrayLength > 0 && occupiesHeadBytes(tc.arrayChild)
+	default:
+		return true
+	}
+}
+
 func decodeABIDynamicArrayBytes(ctx context.Context, breadcrumbs string, block []byte, dataOffset int, component *typeComponent) (cv *ComponentValue, err error) {
 	arrayLength, err := decodeABILength(ctx, breadcrumbs, block, dataOffset)
 	if err != nil {
@@ -266,6 +284,12 @@ func decodeABIDynamicArrayBytes(ctx context.Context, breadcrumbs string, block [
 	}
 	dataOffset += 32
 	dataStart := dataOffset
+	// The count is supplied by the data, so it cannot be trusted to size an allocation until we know
+	// the data could hold that many elements. Every element that occupies any space in the head
+	// occupies at least 32 bytes of it, so the last element starts at least (arrayLength-1)*32 bytes in.
+	if arrayLength > 0 && occupiesHeadBytes(component.arrayChild) && (arrayLength-1)*32 >= len(block)-dataOffset {
+		return nil, i18n.NewError(ctx, signermsgs.MsgNotEnoughBytesABIValue, component, breadcrumbs)
+	}
 	cv = &ComponentValue{
 		Component: component,
 		Children:  make([]*ComponentValue, arrayLength),
